@@ -22,6 +22,7 @@ import Driver.NotifyDrv
 import Driver.BlockDrv
 import Driver.SchedDrv
 import Driver.FreeDrv
+import Klev.Crash
 open Klev Klev.Proto
 
 structure Side where
@@ -72,6 +73,7 @@ structure DState where
   dmg  : Option Dmg := none          -- the damage applied to the copy being read (C14)
   blPre : Option Side := none        -- the log as it was when the blocking log was closed
   crashPre : Spec := ⟨[], 0⟩          -- L0 state before the operation in flight
+  crashPreLog : Option Log := none   -- the model log before the operation in flight
   crashOp : List String := []        -- the operation in flight (tokens)
   crashArmed : Bool := false
   crashBases : List Int := []        -- segment bases from the listing before the operation in flight
@@ -594,7 +596,7 @@ def processLine (st : DState) (raw : String) : DState :=
       | [] => st
       | op0 :: restOps =>
         if op0 = "crash.begin" then
-          { st with crashPre := st.main.spec, crashOp := [], crashArmed := true, counts := bump st.counts op0,
+          { st with crashPre := st.main.spec, crashPreLog := st.main.mlog, crashOp := [], crashArmed := true, counts := bump st.counts op0,
                     crashBases := (st.main.fsVers.getD []).map (·.1) }
         else if op0 = "crash.end" then
           { st with crashArmed := false, counts := bump st.counts op0 }
@@ -621,7 +623,28 @@ def processLine (st : DState) (raw : String) : DState :=
                  | none => false)
             | _, _ => false
           let out := vs.foldl (fun o v => o.push s!"VIOL {st.line} {v} {lhs} inflight={String.intercalate " " (st.crashOp.take 3)} rebase={if rebase then 1 else 0} impl={(String.intercalate " " implToks).take 300}") st.out
-          { st with out := out, viols := st.viols + vs.length, counts := bump st.counts ("crash.img:" ++ (st.crashOp.headD "?")) }
+          -- the directory of a (whole-step, first-level) image is one of the model's crash states of the operation
+          let fsTok := (restOps.find? (·.startsWith "fs=")).map (fun t => (t.drop 3).toString)
+          let cop : Option Crash.COp := match st.crashOp with
+            | "pub" :: _n :: b => (parseBatch b).map (fun bb => Crash.COp.publish (bb.map (fun (x : Option Int × Int × List UInt8 × List UInt8) => (x.2.1, x.2.2.1, x.2.2.2))))
+            | ["del", offsS] => (parseInts offsS).map Crash.COp.delete
+            | _ => none
+          let (sdiff, key) : Option String × String := match fsTok, cop, st.crashPreLog with
+            | some fs, some op, some l0 =>
+              let implLs := String.intercalate " " ((fs.splitOn ",").filter (fun t => !t.startsWith "extra:"))
+              -- the count in front counts segments only
+              let implLs := match implLs.splitOn " " with
+                | _ :: segs => String.intercalate " " (toString segs.length :: segs)
+                | [] => implLs
+              let states := (Crash.crashStates l0 op).map (fmtDisk l0.opts.params)
+              if states.contains implLs then (none, "crash.state:modelled")
+              else (some s!"impl={implLs} model-states={String.intercalate " | " states}", "crash.state:UNMODELLED")
+            | _, _, _ => (none, "crash.state:n/a")
+          let out := match sdiff with
+            | some d => if st.main.msync then out.push s!"DIFF {st.line} crash-state {lhs} {d.take 900}" else out
+            | none => out
+          { st with out := out, viols := st.viols + vs.length, diffs := st.diffs + (if sdiff.isSome && st.main.msync then 1 else 0),
+                    counts := bump (bump st.counts ("crash.img:" ++ (st.crashOp.headD "?"))) key }
         else if op0 = "loss.img" then
           let vs := judgeLoss st.main.spec st.ackW implToks
           let out := vs.foldl (fun o v => o.push s!"VIOL {st.line} {v} {lhs} w={st.ackW} impl={(String.intercalate " " implToks).take 300}") st.out
